@@ -48,6 +48,14 @@ class UnitExporter:
         self.cfgobjs = []  # (config, field)
         self.externs = set()
         self.features = set()
+        self.symmap = {}
+
+    def sym(self, s):
+        """canonical, injective name of a Sym: base name + order of first occurrence"""
+        k = repr(s)
+        if k not in self.symmap:
+            self.symmap[k] = f"{s.name()}#{len(self.symmap) + 1}" if callable(getattr(s, "name", None)) else f"{k}#{len(self.symmap) + 1}"
+        return self.symmap[k]
 
     # -- config fields -------------------------------------------------------
     def cfgkey(self, config, field):
@@ -64,8 +72,8 @@ class UnitExporter:
     def e(self, e):
         if isinstance(e, LoopIR.Read):
             if is_ctl_type(e.type) and not e.idx:
-                return {"k": "v", "n": repr(e.name)}
-            return {"k": "rd", "n": repr(e.name), "idx": [self.e(i) for i in e.idx]}
+                return {"k": "v", "n": self.sym(e.name)}
+            return {"k": "rd", "n": self.sym(e.name), "idx": [self.e(i) for i in e.idx]}
         if isinstance(e, LoopIR.Const):
             if is_ctl_type(e.type) or isinstance(e.val, bool):
                 return {"k": "c", "v": e.val}
@@ -82,10 +90,10 @@ class UnitExporter:
                     "args": [self.e(a) for a in e.args]}
         if isinstance(e, LoopIR.WindowExpr):
             self.features.add("window")
-            return {"k": "win", "n": repr(e.name), "acc": [self.w(w) for w in e.idx]}
+            return {"k": "win", "n": self.sym(e.name), "acc": [self.w(w) for w in e.idx]}
         if isinstance(e, LoopIR.StrideExpr):
             self.features.add("stride")
-            return {"k": "stride", "n": repr(e.name), "dim": e.dim}
+            return {"k": "stride", "n": self.sym(e.name), "dim": e.dim}
         if isinstance(e, LoopIR.ReadConfig):
             self.features.add("config")
             return {"k": "rcfg", "c": self.cfgkey(e.config, e.field)}
@@ -104,7 +112,7 @@ class UnitExporter:
         for s in stmts:
             if isinstance(s, (LoopIR.Assign, LoopIR.Reduce)):
                 out.append({"k": "assign" if isinstance(s, LoopIR.Assign) else "reduce",
-                            "n": repr(s.name), "idx": [self.e(i) for i in s.idx],
+                            "n": self.sym(s.name), "idx": [self.e(i) for i in s.idx],
                             "rhs": self.e(s.rhs)})
             elif isinstance(s, LoopIR.WriteConfig):
                 self.features.add("config")
@@ -120,16 +128,16 @@ class UnitExporter:
                 par = isinstance(s.loop_mode, LoopIR.Par)
                 if par:
                     self.features.add("par")
-                out.append({"k": "for", "it": repr(s.iter), "lo": self.e(s.lo),
+                out.append({"k": "for", "it": self.sym(s.iter), "lo": self.e(s.lo),
                             "hi": self.e(s.hi), "body": b, "par": par})
             elif isinstance(s, LoopIR.Alloc):
-                out.append({"k": "alloc", "n": repr(s.name),
+                out.append({"k": "alloc", "n": self.sym(s.name),
                             "shape": [self.e(x) for x in s.type.shape()]})
             elif isinstance(s, LoopIR.Free):
-                out.append({"k": "free", "n": repr(s.name)})
+                out.append({"k": "free", "n": self.sym(s.name)})
             elif isinstance(s, LoopIR.WindowStmt):
                 self.features.add("window")
-                out.append({"k": "winstmt", "n": repr(s.name), "rhs": self.e(s.rhs)})
+                out.append({"k": "winstmt", "n": self.sym(s.name), "rhs": self.e(s.rhs)})
             elif isinstance(s, LoopIR.Call):
                 self.features.add("call")
                 out.append({"k": "call", "f": self.proc(s.f), "args": [self.e(a) for a in s.args]})
@@ -149,12 +157,12 @@ class UnitExporter:
         args = []
         for a in p.args:
             if a.type.is_numeric():
-                args.append({"n": repr(a.name), "kind": "buf", "win": bool(a.type.is_win()),
+                args.append({"n": self.sym(a.name), "kind": "buf", "win": bool(a.type.is_win()),
                              "shape": [self.e(x) for x in a.type.shape()]})
             else:
                 kind = ("size" if a.type == T.size else "bool" if a.type == T.bool
                         else "stride" if a.type == T.stride else "index")
-                args.append({"n": repr(a.name), "kind": kind, "win": False, "shape": []})
+                args.append({"n": self.sym(a.name), "kind": kind, "win": False, "shape": []})
         self.procs[pid] = {"name": str(p.name), "args": args,
                            "preds": [self.e(x) for x in p.preds],
                            "blocks": blocks, "entry": entry}
